@@ -64,12 +64,23 @@ func genVestingWalk(r *rand.Rand, n int) []Step {
 	return st
 }
 
-var oracleAssets = []string{"ETH", "ETHZ", "ETHel", "ETHelys", "ETHe", "WBTC", "WBTC.e", "ATOM"}
+var oracleAssets = []string{"ETH", "ETHZ", "ETHel", "ETHelys", "ETHe", "WBTC", "WBTC.e", "ATOM", "ibc/ETH"}
 var oracleSources = []string{"elys", "elys", "band", "ys", "x", "lys", "elysium", "binance"}
 
 func genOracleWalk(r *rand.Rand, n int) []Step {
 	var st []Step
 	px := func() string { return fmt.Sprintf("%d.%02d", 1+r.Intn(3000), r.Intn(100)) }
+	if genIndex%8 == 4 {
+		// scripted corner: feeds at block times whose big-endian bytes contain the key separator '/' (0x2F), with an older
+		// live entry of the same source and a band entry of the same asset around
+		a := pick(r, "ETH", "WBTC", "ATOM")
+		st = append(st, Step{"a": "feed", "u": "feeder", "asset": a, "src": "elys", "px": px()}, Step{"a": "block", "dt": float64(5)},
+			Step{"a": "feed", "u": "feeder", "asset": a, "src": "band", "px": px()}, Step{"a": "feed", "u": "feeder", "asset": a, "src": "elys", "px": px()},
+			Step{"a": "blockAtByte", "idx": float64(0)}, Step{"a": "block", "dt": float64(5)},
+			Step{"a": "feed", "u": "feeder", "asset": a, "src": "elys", "px": px()}, Step{"a": "block", "dt": float64(7)},
+			Step{"a": "feed", "u": "feeder", "asset": a, "src": "band", "px": px()}, Step{"a": "feed", "u": "feeder", "asset": a, "src": "elys", "px": px()},
+			Step{"a": "blockAtByte", "idx": float64(pick(r, 1, 1, 2))}, Step{"a": "block", "dt": float64(5)})
+	}
 	if genIndex%8 == 0 {
 		// scripted corner: two (asset, source) pairs with the same concatenation fed in one block, then looked up and expired
 		st = append(st, Step{"a": "feed", "u": "feeder", "asset": "ETH", "src": "elys", "px": px()}, Step{"a": "feed", "u": "feeder", "asset": "ETHe", "src": "lys", "px": px()},
@@ -99,7 +110,7 @@ func genOracleWalk(r *rand.Rand, n int) []Step {
 				st = append(st, Step{"a": "setFeeder", "u": "feeder", "active": "true"})
 			}
 		default:
-			st = append(st, Step{"a": "block", "dt": float64(pick(r, 5, 5, 5, 20, 30, 61, 200)), "n": float64(pick(r, 1, 1, 1, 2, 3))})
+			st = append(st, Step{"a": "block", "dt": float64(pick(r, 1, 3, 5, 5, 7, 20, 30, 47, 61, 200)), "n": float64(pick(r, 1, 1, 1, 2, 3))})
 		}
 	}
 	return st
@@ -158,6 +169,19 @@ func genOrdersWalk(r *rand.Rand, n int) []Step {
 		return out
 	}
 	muls := []string{"0.5", "0.9", "0.999", "1", "1.001", "1.1", "2"}
+	if genIndex%5 == 3 {
+		// scripted corner: one execution request naming a triggered whale limit-open (its open fails on pool health AFTER the
+		// collateral has moved) followed by an order that is merely skipped / executed
+		st = append(st, Step{"a": "perpOrder", "u": "u2", "p": float64(1), "side": "long", "sz": pick(r, "20%", "20%", "s3"), "trig": "1.1", "lev": pick(r, "5", "9")},
+			Step{"a": "perpOrder", "u": "u3", "p": float64(1), "side": "long", "sz": "1000000", "trig": pick(r, "0.5", "1.1"), "lev": "2"},
+			Step{"a": "spotOrder", "u": "u3", "type": "LIMITSELL", "base": "uatom", "quote": "uusdc", "d": "uatom", "target": "uusdc", "sz": "s1", "mul": "0.5"},
+			Step{"a": "block", "dt": float64(5)},
+			// (an execution request naming a NOT triggered spot order panics in the event constructor and is rolled back as a
+			// whole - outside the listed properties - so the spot order here is a triggered one)
+			Step{"a": "execOrders", "u": "bot", "spot": pick(r, []any{}, []any{float64(1)}), "perp": []any{float64(1), float64(2)}}, Step{"a": "block", "dt": float64(5)},
+			Step{"a": "cancelPerpOrder", "u": "u2", "id": float64(1)}, Step{"a": "block", "dt": float64(5)})
+		nextSpot, nextPerp = 2, 3
+	}
 	for i := 0; i < n; i++ {
 		u := pick(r, users...)
 		switch r.Intn(20) {
